@@ -26,6 +26,7 @@ RULE = (
 )
 RULE += " " + "Added after the seeding rounds: a complete grid of small boundary constructions (an escaped-on-save token 0..3 characters before offset 256..8192 of the value or of the whole text), key/value pairs that coincide when glued or printed (a colon moved between key and value, None / 'None'), U+FEFF inside keys and values."
 RULE += " " + "Round 6: the boundary grid also uses round decimal sizes (500, 1000, 2000, 4000, 10000); for the 'text' alignment the long value is the VERSION value itself (the first SSC parameter)."
+RULE += " " + 'Round 7: values with a blank-only line; a simfile-level key spelled NOTES / NOTES2 makes the harness report a non-chart entry of the chart list as a violation.'
 ASSUMPTIONS = [
     "msdparser.parse_msd is the trusted tokenizer",
     "values inside msdparser's escaping gap are outside the domain (known findings)",
